@@ -46,7 +46,7 @@ theorem framedBody_ext (c : Codec) (r : Reader) (t : Bytes) (k : Nat) (hd : (fra
     simp only [List.length_take] at h4; omega
   have ht4 : (r.rest ++ t).take 4 = r.rest.take 4 := List.take_append_of_le_length hl4
   by_cases hin : ((r.rest.drop 4).take (deN (r.rest.take 4))).length < deN (r.rest.take 4)
-  · rw [if_pos hin] at hd; simp [Chunk.isData] at hd
+  · rw [if_pos hin] at hd; split at hd <;> simp [Chunk.isData] at hd
   rw [if_neg hin] at hd
   have hlf : 4 + deN (r.rest.take 4) ≤ r.rest.length := by
     simp only [List.length_take, List.length_drop] at hin; omega
